@@ -29,7 +29,7 @@ CHECKS = {
         design_ref="DESIGN.md §3.3, §5 C02", note=_KM_NOTE + " Counters mode: element identity abstracted (lookups answer nondeterministically); leftovers <= 18 where a loop walks them.",
         technique="SAT-based bounded model checking (Kani/CBMC), counters-mode model with unconstrained 64-bit sizes"),
     "C03": dict(
-        text="Exact progress per call (L' = L - min(R, L) for every key-adding call, for any L <= 18 and any main-table size) and release of the old table as soon as it is emptied by remove / entry removal / drain_filter / clear / drain, with at most two live tables at every call boundary; decided for all contents by CBMC. The induction to 'finished within ceil(L/R) calls' is a stated paper step.",
+        text="Exact progress per call (L' = L - min(R, L) for every key-adding call - HashMap::insert, VacantEntry::insert, raw-entry insert / or_insert* / vacant inserts, HashSet::insert / get_or_insert* - for any L <= 18 and any main-table size) and release of the old table as soon as it is emptied by remove / entry removal / drain_filter / clear / drain, with at most two live tables at every call boundary; decided for all contents by CBMC. The induction to 'finished within ceil(L/R) calls' is a stated paper step.",
         design_ref="DESIGN.md §5 C03", note=_KM_NOTE,
         technique="SAT-based bounded model checking (Kani/CBMC) of one-step inductive harnesses; counters mode for arbitrary sizes"),
     "C04": dict(
